@@ -271,13 +271,22 @@ class CallMixin:
         a = node.args[0]
         if isinstance(a, (ast.GeneratorExp, ast.ListComp)):
             return self.quantify(a, st, True)
-        raise Unsupported("all() of non-generator")
+        return self._all_any_seq(a, st, True)
 
     def bi_any(self, node, st, want):
         a = node.args[0]
         if isinstance(a, (ast.GeneratorExp, ast.ListComp)):
             return self.quantify(a, st, False)
-        raise Unsupported("any() of non-generator")
+        return self._all_any_seq(a, st, False)
+
+    def _all_any_seq(self, a, st, universal):
+        v = self.ev(a, st)
+        if not isinstance(v.ty, T.Seq):
+            raise Unsupported(f"all()/any() of {v.ty}")
+        j = z3.Int(fresh_name("j"))
+        el = self.truthy(SV(z3.Select(v.ty.arr(v.t), j), v.ty.elem))
+        rng = z3.And(0 <= j, j < v.ty.len(v.t))
+        return SV(z3.ForAll([j], z3.Implies(rng, el)) if universal else z3.Exists([j], z3.And(rng, el)), T.Bool)
 
     def bi_isinstance(self, node, st, want):
         v = self.ev(node.args[0], st)
